@@ -7,12 +7,8 @@
    (b) explicit rejection theorems for Ed25519 and RSA: missing / wrong
        prefix, other prefix id or variant, trailing and truncated bytes, the
        LEGACY suffix on Sign and on Verify;
-   (c) "modified message / other key rejected" in reduction form: whenever a
-       genuinely produced signature is accepted for another (key, message),
-       the primitive oracle has accepted the genuine raw signature on a
-       DIFFERENT (key, message representative) pair (or the hash collided on
-       two distinct strings); conversely, if the oracle accepts the genuine
-       raw signature for no other pair, Verify rejects.
+   (c) "modified message / other key": proofs/SigProofs3.v (repaired after the
+       second audit).
 
    All four Tink verifiers have the same frame: prefix check, strip, then a
    check of (body, message || legacy suffix); the generic part is proved once
@@ -460,31 +456,6 @@ Section Ed.
     intros sig. destruct (negb _); [discriminate|]. intros E. injection E as <-. reflexivity.
   Qed.
 
-  (* (c) reduction form *)
-  Theorem ed25519_forgery_reduction v id seed pub msg sig pub' msg' :
-    ed25519_sign ed_sign v id seed msg = Ok sig ->
-    ed25519_verify ed_raw v id pub' sig msg' = Ok tt ->
-    (pub', msg') <> (pub, msg) ->
-    ed_raw pub' (msg' ++ suffix v) (ed_sign seed (msg ++ suffix v)) = true /\
-    (pub', msg' ++ suffix v) <> (pub, msg ++ suffix v).
-  Proof.
-    intros Hs Hv Hne. unfold ed25519_sign in Hs. destruct (negb _); [discriminate|].
-    injection Hs as <-. rewrite ed25519_is_framed in Hv. apply framed_genuine_body in Hv.
-    unfold ed_chk in Hv. apply andb_true_iff in Hv. destruct Hv as [_ Hv]. split; [exact Hv|].
-    intros E. apply Hne. injection E as E1 E2. apply app_inv_tail in E2. congruence.
-  Qed.
-
-  Theorem ed25519_modified_rejected_unless_forgery v id seed pub msg sig pub' msg' :
-    ed25519_sign ed_sign v id seed msg = Ok sig ->
-    (forall p m, ed_raw p m (ed_sign seed (msg ++ suffix v)) = true -> (p, m) = (pub, msg ++ suffix v)) ->
-    (pub', msg') <> (pub, msg) ->
-    ed25519_verify ed_raw v id pub' sig msg' = Err.
-  Proof.
-    intros Hs Hu Hne. rewrite ed25519_is_framed. apply framed_not_ok_err.
-    rewrite <- ed25519_is_framed. intros Hv.
-    destruct (ed25519_forgery_reduction v id seed pub msg sig pub' msg' Hs Hv Hne) as [Hf Hd].
-    apply Hd. apply Hu. exact Hf.
-  Qed.
 End Ed.
 
 (* ------------------------------------------------------------------ *)
@@ -524,91 +495,6 @@ Section Rsa.
     repeat split; reflexivity.
   Qed.
 
-  (* (c) reduction form.  The message representative of RSASSA is the digest;
-     a different message gives either a different representative or a hash
-     collision on two distinct strings. *)
-  Theorem pkcs1_forgery_reduction k k' sk msg msg' :
-    rsa_same_prefix k k' ->
-    pkcs1_verify H pkcs1_raw k' (pkcs1_sign H pkcs1_sign_raw k sk msg) msg' = Ok tt ->
-    (rk_n k', rk_e k', rk_hash k', msg') <> (rk_n k, rk_e k, rk_hash k, msg) ->
-    let sfx := suffix (rk_variant k) in
-    let body := pkcs1_sign_raw sk (rk_hash k) (H (rk_hash k) (msg ++ sfx)) in
-    pkcs1_raw (rk_n k') (rk_e k') (rk_hash k') (H (rk_hash k') (msg' ++ sfx)) body = true /\
-    ((rk_n k', rk_e k', rk_hash k', H (rk_hash k') (msg' ++ sfx)) <>
-       (rk_n k, rk_e k, rk_hash k, H (rk_hash k) (msg ++ sfx)) \/
-     (H (rk_hash k) (msg' ++ sfx) = H (rk_hash k) (msg ++ sfx) /\ msg' ++ sfx <> msg ++ sfx)).
-  Proof.
-    intros [Sv Si] Hv Hne sfx body. rewrite pkcs1_is_framed in Hv. unfold pkcs1_sign in Hv.
-    rewrite Sv, Si in Hv. apply framed_genuine_body in Hv. unfold pkcs1_chk in Hv.
-    fold sfx in Hv. fold body in Hv. split; [exact Hv|].
-    destruct (list_eq_dec N.eq_dec (rk_n k') (rk_n k)) as [En|En]; [|left; congruence].
-    destruct (N.eq_dec (rk_e k') (rk_e k)) as [Ee|Ee]; [|left; congruence].
-    assert (Dh : {rk_hash k' = rk_hash k} + {rk_hash k' <> rk_hash k}) by decide equality.
-    destruct Dh as [Eh|Eh]; [|left; congruence].
-    destruct (list_eq_dec N.eq_dec (H (rk_hash k') (msg' ++ sfx)) (H (rk_hash k) (msg ++ sfx))) as [Ed|Ed];
-      [|left; congruence].
-    right. rewrite Eh in Ed. split; [exact Ed|].
-    intros E. apply app_inv_tail in E. apply Hne. congruence.
-  Qed.
-
-  Theorem pkcs1_modified_rejected_unless_forgery k k' sk msg msg' :
-    rsa_same_prefix k k' ->
-    let sfx := suffix (rk_variant k) in
-    let body := pkcs1_sign_raw sk (rk_hash k) (H (rk_hash k) (msg ++ sfx)) in
-    (forall n e h d, pkcs1_raw n e h d body = true ->
-       (n, e, h, d) = (rk_n k, rk_e k, rk_hash k, H (rk_hash k) (msg ++ sfx))) ->
-    (H (rk_hash k) (msg' ++ sfx) = H (rk_hash k) (msg ++ sfx) -> msg' ++ sfx = msg ++ sfx) ->
-    (rk_n k', rk_e k', rk_hash k', msg') <> (rk_n k, rk_e k, rk_hash k, msg) ->
-    pkcs1_verify H pkcs1_raw k' (pkcs1_sign H pkcs1_sign_raw k sk msg) msg' = Err.
-  Proof.
-    intros Sp sfx body Hu Hc Hne. rewrite pkcs1_is_framed. apply framed_not_ok_err.
-    rewrite <- pkcs1_is_framed. intros Hv.
-    destruct (pkcs1_forgery_reduction k k' sk msg msg' Sp Hv Hne) as [Hf [Hd|[Hcol Hd]]].
-    - apply Hd. apply Hu. exact Hf.
-    - apply Hd. apply Hc. exact Hcol.
-  Qed.
-
-  Theorem pss_forgery_reduction k k' sk rnd msg msg' :
-    rsa_same_prefix k k' ->
-    pss_verify H pss_raw k' (pss_sign H pss_sign_raw k sk rnd msg) msg' = Ok tt ->
-    (rk_n k', rk_e k', rk_hash k', rk_salt k', msg') <> (rk_n k, rk_e k, rk_hash k, rk_salt k, msg) ->
-    let sfx := suffix (rk_variant k) in
-    let body := pss_sign_raw sk (rk_hash k) (rk_salt k) (H (rk_hash k) (msg ++ sfx)) rnd in
-    pss_raw (rk_n k') (rk_e k') (rk_hash k') (rk_salt k') (H (rk_hash k') (msg' ++ sfx)) body = true /\
-    ((rk_n k', rk_e k', rk_hash k', rk_salt k', H (rk_hash k') (msg' ++ sfx)) <>
-       (rk_n k, rk_e k, rk_hash k, rk_salt k, H (rk_hash k) (msg ++ sfx)) \/
-     (H (rk_hash k) (msg' ++ sfx) = H (rk_hash k) (msg ++ sfx) /\ msg' ++ sfx <> msg ++ sfx)).
-  Proof.
-    intros [Sv Si] Hv Hne sfx body. rewrite pss_is_framed in Hv. unfold pss_sign in Hv.
-    rewrite Sv, Si in Hv. apply framed_genuine_body in Hv. unfold pss_chk in Hv.
-    fold sfx in Hv. fold body in Hv. split; [exact Hv|].
-    destruct (list_eq_dec N.eq_dec (rk_n k') (rk_n k)) as [En|En]; [|left; congruence].
-    destruct (N.eq_dec (rk_e k') (rk_e k)) as [Ee|Ee]; [|left; congruence].
-    assert (Dh : {rk_hash k' = rk_hash k} + {rk_hash k' <> rk_hash k}) by decide equality.
-    destruct Dh as [Eh|Eh]; [|left; congruence].
-    destruct (N.eq_dec (rk_salt k') (rk_salt k)) as [Es|Es]; [|left; congruence].
-    destruct (list_eq_dec N.eq_dec (H (rk_hash k') (msg' ++ sfx)) (H (rk_hash k) (msg ++ sfx))) as [Ed|Ed];
-      [|left; congruence].
-    right. rewrite Eh in Ed. split; [exact Ed|].
-    intros E. apply app_inv_tail in E. apply Hne. congruence.
-  Qed.
-
-  Theorem pss_modified_rejected_unless_forgery k k' sk rnd msg msg' :
-    rsa_same_prefix k k' ->
-    let sfx := suffix (rk_variant k) in
-    let body := pss_sign_raw sk (rk_hash k) (rk_salt k) (H (rk_hash k) (msg ++ sfx)) rnd in
-    (forall n e h s d, pss_raw n e h s d body = true ->
-       (n, e, h, s, d) = (rk_n k, rk_e k, rk_hash k, rk_salt k, H (rk_hash k) (msg ++ sfx))) ->
-    (H (rk_hash k) (msg' ++ sfx) = H (rk_hash k) (msg ++ sfx) -> msg' ++ sfx = msg ++ sfx) ->
-    (rk_n k', rk_e k', rk_hash k', rk_salt k', msg') <> (rk_n k, rk_e k, rk_hash k, rk_salt k, msg) ->
-    pss_verify H pss_raw k' (pss_sign H pss_sign_raw k sk rnd msg) msg' = Err.
-  Proof.
-    intros Sp sfx body Hu Hc Hne. rewrite pss_is_framed. apply framed_not_ok_err.
-    rewrite <- pss_is_framed. intros Hv.
-    destruct (pss_forgery_reduction k k' sk rnd msg msg' Sp Hv Hne) as [Hf [Hd|[Hcol Hd]]].
-    - apply Hd. apply Hu. exact Hf.
-    - apply Hd. apply Hc. exact Hcol.
-  Qed.
 End Rsa.
 
 (* RSA with the standard length rule: other prefix, trailing, truncated *)
@@ -682,56 +568,4 @@ Section Ecdsa.
     cbn [ek_variant ek_id ek_enc ek_curve ek_pub ek_hash prefix suffix]. rewrite app_nil_r. reflexivity.
   Qed.
 
-  Theorem ecdsa_forgery_reduction k sk rnd msg sig pub' h' msg' :
-    (forall c sk h rnd, fst (sign_rs c sk h rnd) < 256 ^ N.of_nat (field_size c) /\
-                        snd (sign_rs c sk h rnd) < 256 ^ N.of_nat (field_size c)) ->
-    ecdsa_sign H sign_rs k sk rnd msg = Some sig ->
-    ecdsa_verify H raw (ecdsa_with_pub_hash k pub' h') sig msg' = Ok tt ->
-    (pub', h', msg') <> (ek_pub k, ek_hash k, msg) ->
-    let sfx := suffix (ek_variant k) in
-    let rs := sign_rs (ek_curve k) sk (H (ek_hash k) (msg ++ sfx)) rnd in
-    raw (ek_curve k) pub' (H h' (msg' ++ sfx)) (fst rs) (snd rs) = true /\
-    ((pub', H h' (msg' ++ sfx)) <> (ek_pub k, H (ek_hash k) (msg ++ sfx)) \/
-     (H h' (msg' ++ sfx) = H (ek_hash k) (msg ++ sfx) /\ (h', msg' ++ sfx) <> (ek_hash k, msg ++ sfx))).
-  Proof.
-    intros Hrange Hs Hv Hne sfx rs. unfold ecdsa_sign in Hs. fold sfx in Hs. fold rs in Hs.
-    pose proof (Hrange (ek_curve k) sk (H (ek_hash k) (msg ++ sfx)) rnd) as [Br Bs].
-    fold rs in Br, Bs.
-    assert (Hf : sig_fits k (fst rs) (snd rs)).
-    { unfold sig_fits. destruct (ek_enc k); [|exact I].
-      eapply der_fits_small; [apply field_size_le|exact Br|exact Bs]. }
-    pose proof (ecdsa_frame_wf _ _ _ _ Hs Hf) as Hw.
-    apply ecdsa_verify_iff_proof in Hv; [|exact Hw].
-    destruct Hv as [r' [s' [Hfr [Hf' Hr]]]].
-    cbn [ecdsa_with_pub_hash ek_curve ek_pub ek_hash ek_variant] in Hr. fold sfx in Hr.
-    assert (Hfr' : ecdsa_frame k r' s' = Some sig) by exact Hfr.
-    assert (Hf'' : sig_fits k r' s') by exact Hf'.
-    destruct (ecdsa_frame_inj k _ _ _ _ _ Hs Hfr' Hf Hf'') as [<- <-].
-    split; [exact Hr|].
-    destruct (list_eq_dec N.eq_dec pub' (ek_pub k)) as [Ep|Ep]; [|left; congruence].
-    destruct (list_eq_dec N.eq_dec (H h' (msg' ++ sfx)) (H (ek_hash k) (msg ++ sfx))) as [Ed|Ed];
-      [|left; congruence].
-    right. split; [exact Ed|].
-    intros E. injection E as E1 E2. apply app_inv_tail in E2. apply Hne. congruence.
-  Qed.
-
-  Theorem ecdsa_modified_rejected_unless_forgery k sk rnd msg sig pub' h' msg' :
-    (forall c sk h rnd, fst (sign_rs c sk h rnd) < 256 ^ N.of_nat (field_size c) /\
-                        snd (sign_rs c sk h rnd) < 256 ^ N.of_nat (field_size c)) ->
-    ecdsa_sign H sign_rs k sk rnd msg = Some sig ->
-    let sfx := suffix (ek_variant k) in
-    let rs := sign_rs (ek_curve k) sk (H (ek_hash k) (msg ++ sfx)) rnd in
-    (forall p d, raw (ek_curve k) p d (fst rs) (snd rs) = true -> (p, d) = (ek_pub k, H (ek_hash k) (msg ++ sfx))) ->
-    (H h' (msg' ++ sfx) = H (ek_hash k) (msg ++ sfx) -> (h', msg' ++ sfx) = (ek_hash k, msg ++ sfx)) ->
-    (pub', h', msg') <> (ek_pub k, ek_hash k, msg) ->
-    ecdsa_verify H raw (ecdsa_with_pub_hash k pub' h') sig msg' = Err.
-  Proof.
-    intros Hrange Hs sfx rs Hu Hc Hne.
-    destruct (ecdsa_verify H raw (ecdsa_with_pub_hash k pub' h') sig msg') as [[]| |] eqn:Hv;
-      [exfalso|reflexivity|exfalso; eapply ecdsa_verify_no_panic_proof; exact Hv].
-    destruct (ecdsa_forgery_reduction k sk rnd msg sig pub' h' msg' Hrange Hs Hv Hne)
-      as [Hf [Hd|[Hcol Hd]]].
-    - apply Hd. apply Hu. exact Hf.
-    - apply Hd. apply Hc. exact Hcol.
-  Qed.
 End Ecdsa.
